@@ -133,6 +133,7 @@ pub fn run(ctx: &Ctx) -> Report {
     let seed = ctx.seed;
     let mut notes = vec![];
     for sp in &spaces {
+        let t_space = std::time::Instant::now();
         let nf = flagsets.len() as u64;
         let acc = par_for(ctx, sp.total * nf, 64, |i| { let (p, e) = sp.at(i / nf); format!("prog={} env={} flags={:#x}", p.hex(), e.hex(), flagsets[(i % nf) as usize].bits()) }, |i, acc| {
             let (p, e) = sp.at(i / nf);
@@ -141,7 +142,7 @@ pub fn run(ctx: &Ctx) -> Report {
             acc.inc("cases");
             acc.maybe_sample(sample_key(seed, i ^ fnv(sp.name.as_bytes())), || json!({"space": sp.name, "prog": p.hex(), "env": e.hex(), "flags": format!("{:#x}", f.bits())}));
         });
-        notes.push(json!({"space": sp.name, "programs": sp.total, "flag_sets": nf}));
+        notes.push(json!({"space": sp.name, "wall_s": t_space.elapsed().as_secs_f64(), "programs": sp.total, "flag_sets": nf}));
         rep.absorb(acc);
     }
     rep.note("spaces", json!(notes));
